@@ -11,7 +11,7 @@ from vfw.sched import GAP, Req
 PROPERTY_ID = 'C02'
 LEVEL = 'exploration'
 S = ps.ProcessState
-ACTS = [sched.PAUSE, sched.PLAY, sched.KILL, sched.RESUME, sched.FAIL, sched.CS_RAISE]
+ACTS = [sched.PAUSE, sched.PLAY, sched.KILL, sched.RESUME, sched.FAIL, sched.CS_RAISE, sched.CANCEL]
 NACT = len(ACTS)
 NWHERE = 5  # gap + 4 listener notification kinds
 NPOS = 12
@@ -39,7 +39,7 @@ def oracle(run: sched.Run, reqs, step_cleanups) -> None:
     if run.future_done_while_live:
         raise Violation('future_resolved_while_live', **facts)
     if not p.has_terminated():
-        if run.future.done() or p.future().done():
+        if (run.future.done() and not run.future.cancelled()) or (p.future().done() and not p.future().cancelled()):
             raise Violation('future_resolved_while_live', **facts)
         return
     fut = p.future()
@@ -115,7 +115,7 @@ def oracle(run: sched.Run, reqs, step_cleanups) -> None:
             raise Violation('wrong_terminal_notification', got=terminal_notes[0][0], **facts)
         msg = p.killed_msg()
         text = msg[MESSAGE_TEXT_KEY]
-        candidates = [r.txt for r in kills] + ['by-command']
+        candidates = [r.txt for r in kills] + ['by-command', 'Killed by future being cancelled']
         if not any(text == c for c in candidates):
             raise Violation('kill_text_unknown', **facts)
         e = fut.exception() if not fut.cancelled() else None
@@ -244,7 +244,7 @@ BOUNDS = {
     'thorough': dict(requests='K = 2 with each request in a gap or in a listener notification; K = 3 in gaps',
                      actions=[sched.ACT_NAMES[a] for a in ACTS], positions=f'gaps 0..{NPOS}', programs='P0..P10', data='int, str len <= 2 (<= 1 for K = 3)'),
 }
-OUTSIDE = ['future().cancel() as a request (C04)', 'hooks that raise (C03)', 'more than K requests', 'communicator-borne requests (C16)']
+OUTSIDE = ['hooks that raise (C03)', 'more than K requests', 'communicator-borne requests (C16)']
 RULE = ('paths over (program, K requests with position/listener placement, action, value, text); non-trivial when at least one request was '
         'applied to the live process and the process terminated, so that the full outcome table was evaluated')
 SOLVER_ROLE = 'selector role for placement/action (exhaustive pruned case split + exhaustion verdict); data role for resume values and kill texts (result()/killed_msg() compared symbolically)'
